@@ -28,8 +28,11 @@ Inductive case :=
 | CAllFrames (v : impl) (id : Z) (s : str)                      (* translate for (plus, minus) x start 0,1,2 *)
 | CPinnedFrames (id : Z) (s : str)                              (* same, pre-repair model [translate_pinned] *)
 | CRc2 (v : impl) (m : moltype) (s : str)                       (* rc(rc(s)) *)
-| CGetTrans (fixed : bool) (kind : Z) (id : Z) (seqs : list str)  (* all 8 (incomplete_ok, include_stop, trim_stop);
-                                                                     fixed = with / without the repairs C12-2, C12-3 *)
+| CGetTrans (fixed fd : bool) (kind : Z) (id : Z) (seqs : list str)  (* all 8 (incomplete_ok, include_stop, trim_stop);
+                                                                     fixed = with / without the repairs C12-2, C12-3;
+                                                                     fd = with / without the repair C12-4 *)
+| CTranslateV (fm fd : bool) (id : Z) (s : str) (start : Z) (minus : bool)  (* [translate_w]: byte width explicit *)
+| CFramesV (fm fd : bool) (id : Z) (s : str)                    (* [translate_w] for (plus, minus) x start 0,1,2 *)
 | CPinnedTranslate (id : Z) (s : str) (start : Z) (minus : bool)  (* pre-repair model [translate_pinned] *)
 | CComplement (v : impl) (m : moltype) (s : str)
 | CRc (v : impl) (m : moltype) (s : str)
@@ -49,7 +52,7 @@ Definition run_translate (v : impl) (id : Z) (s : str) (start : Z) (minus : bool
   | Old => vres VS (translate_old aa (if minus then rc_pure dna_comp_old s else s) start)
   end.
 
-Definition get_trans (fx : bool) (kind : Z) (aa : str) (seqs : list str) (ok inc trim : bool) : res (list str) :=
+Definition get_trans (fx fd : bool) (kind : Z) (aa : str) (seqs : list str) (ok inc trim : bool) : res (list str) :=
   if (kind =? 0) || (kind =? 6) then
     match seqs with
     | [s] => let s := if kind =? 6 then rc_pure dna_comp_old s else s in
@@ -58,10 +61,10 @@ Definition get_trans (fx : bool) (kind : Z) (aa : str) (seqs : list str) (ok inc
   else if (kind =? 1) || (kind =? 5) then
     match seqs with
     | [s] => let s := if kind =? 5 then rc_pure dna_comp_new s else s in
-             bind (seq_get_translation_new fx aa s ok inc trim) (fun p => Ok [p])
+             bind (seq_get_translation_new fx fd aa s ok inc trim) (fun p => Ok [p])
     | _ => Err E_Unmodelled end
   else if kind =? 2 then coll_get_translation_old fx fx aa seqs ok inc trim
-  else if kind =? 3 then coll_get_translation_new fx aa seqs ok inc trim
+  else if kind =? 3 then coll_get_translation_new fx fd aa seqs ok inc trim
   else if (kind =? 4) || (kind =? 7) then aln_get_translation_old fx fx aa seqs ok inc trim
   else Err E_Unmodelled.
 
@@ -79,10 +82,13 @@ Definition run_case (c : case) : val :=
       VL (flat_map (fun mn => map (fun st => VS (translate_pinned (code_aa New id) s st mn)) [0; 1; 2]) [false; true])
   | CRc2 v m s => vres VS (bind (rc v m s) (rc v m))
   | CPinnedTranslate id s start minus => VS (translate_pinned (code_aa New id) s start minus)
-  | CGetTrans fx kind id seqs =>
+  | CTranslateV fm fd id s start minus => VS (translate_w fm fd (code_aa New id) s start minus)
+  | CFramesV fm fd id s =>
+      VL (flat_map (fun mn => map (fun st => VS (translate_w fm fd (code_aa New id) s st mn)) [0; 1; 2]) [false; true])
+  | CGetTrans fx fd kind id seqs =>
       let aa := code_aa (if (kind =? 1) || (kind =? 3) || (kind =? 5) then New else Old) id in
       VL (map (fun o : bool * bool * bool =>
-                 let '(ok, inc, trim) := o in vres vstrs (get_trans fx kind aa seqs ok inc trim)) bools3)
+                 let '(ok, inc, trim) := o in vres vstrs (get_trans fx fd kind aa seqs ok inc trim)) bools3)
   | CComplement v m s => vres VS (complement v m s)
   | CRc v m s => vres VS (rc v m s)
   | CResolve v m motif => vres vstrs (resolve_ambiguity v m motif)
